@@ -119,6 +119,21 @@ class Facts:
             raise AnalysisBroken("anchor enum not found: %s" % name)
         return self._enums[name]
 
+    def enum_with(self, enumerator):
+        """{enumerator: value} of the (possibly anonymous/typedef'd) enum that declares `enumerator`"""
+        hits = []
+        for u in self.units:
+            with open(units.cache_prefix(u) + ".idx.jsonl") as f:
+                for ln in f:
+                    if ln.startswith('{"enum"') and ('"%s"' % enumerator) in ln:
+                        d = json.loads(ln)
+                        vals = dict((a, b) for a, b in d["vals"])
+                        if enumerator in vals and vals not in hits:
+                            hits.append(vals)
+        if len(hits) != 1:
+            raise AnalysisBroken("enum declaring %s: found %d candidates" % (enumerator, len(hits)))
+        return hits[0]
+
     def all_fns(self, pred=None):
         self._load()
         for lst in self._fns.values():
